@@ -1,9 +1,12 @@
+pub mod c05;
 pub mod c06;
+pub mod c07;
+pub mod c08;
 
 use crate::framework::Check;
 
 pub fn all() -> Vec<&'static dyn Check> {
-    vec![&c06::C06]
+    vec![&c05::C05, &c06::C06, &c07::C07, &c08::C08]
 }
 
 pub fn by_id(id: &str) -> Option<&'static dyn Check> {
